@@ -397,7 +397,10 @@ impl<'de, R: Reader<'de>> Deserializer<R> {
             // the value was parsed from a padded copy: it must end inside the JSON (not in the
             // padding chars) and must not contain the invalid UTF-8 found when creating the reader
             if n > len {
-                return Err(self.parser.error(EofWhileParsing));
+                let err = self.parser.error(EofWhileParsing);
+                // leave the reader inside the input: the deserializer can be used again
+                self.parser.read.set_index(len);
+                return Err(err);
             }
             if !cfg.utf8_lossy {
                 self.parser.check_invalid_utf8(false)?;
